@@ -166,9 +166,32 @@ def _directed_windows(rng, ivs):
     return [(float(a), float(b)) for a, b in w if a < b]
 
 
+def layout_of(ivs):
+    """memory layout of the (N,2) array handed to Livetime: a pure function of the interval values (so a replay rebuilds the
+    same array): 0 C-contiguous, 1 transposed view np.array([starts, stops]).T, 2 strided view into a wider array,
+    3 Fortran-ordered copy.  The documented input is 'an (N,2)-shaped float64 ndarray' - the layout is not part of it."""
+    import zlib
+    return zlib.crc32(repr(ivs).encode()) % 4
+
+
+def mk_array(ivs):
+    a = np.array(ivs, dtype=np.float64).reshape((-1, 2))
+    lay = layout_of(ivs)
+    if lay == 1:
+        return np.array([a[:, 0].copy(), a[:, 1].copy()], dtype=np.float64).T
+    if lay == 2:
+        w = np.full((a.shape[0], 5), np.nan, dtype=np.float64)
+        w[:, 1] = a[:, 0]
+        w[:, 3] = a[:, 1]
+        return w[:, 1:4:2]
+    if lay == 3:
+        return np.asfortranarray(a)
+    return a
+
+
 def mk(ivs):
     from skyllh.core.livetime import Livetime
-    return Livetime(np.array(ivs, dtype=np.float64).reshape((-1, 2)))
+    return Livetime(mk_array(ivs))
 
 
 # ------------------------------------------------------------------------------------------
@@ -232,6 +255,8 @@ def o_upto(ctx, case):
         except Exception as e:  # noqa
             return 'get_livetime_upto(%r) on %r raised %s: %s' % (t, ivs, type(e).__name__, e)
         want = sum((min(fr(b), fr(t)) - min(fr(a), fr(t)) for a, b in ivs), Fraction(0))
+        if not np.isfinite(float(got)):
+            return 'get_livetime_upto(%r) on %r = %r, on-time before t = %r' % (t, ivs, float(got), float(want))
         if abs(Fraction(float(got)) - want) > Fraction(1e-9) * Fraction(tot) + abs(fr(t)) * Fraction(2e-16):
             return 'get_livetime_upto(%r) on %r = %r, on-time before t = %r' % (t, ivs, float(got), float(want))
         if float(got_arr[0]) != float(got):
@@ -308,7 +333,7 @@ def o_subset(ctx, case):
         return 'get_data_subset kept mc rows %r, expected %r' % (sorted(sub.mc['tag']), want)
     wantlt = sum((hi - lo for lo, hi in ref_intersection(ivs, t0, t1)), Fraction(0))
     tot = sum(abs(b - a) for a, b in ivs) + 1e-300
-    if abs(Fraction(float(ltsub.livetime)) - wantlt) > Fraction(1e-9) * Fraction(tot):
+    if not np.isfinite(float(ltsub.livetime)) or abs(Fraction(float(ltsub.livetime)) - wantlt) > Fraction(1e-9) * Fraction(tot):
         return 'get_data_subset live time %r, on-time inside the window is %r' % (float(ltsub.livetime), float(wantlt))
     if abs(float(sub.livetime) - float(ltsub.livetime)) > 1e-9 * tot:
         return 'DatasetData.livetime of the subset differs from the Livetime of the subset'
@@ -320,7 +345,7 @@ def o_integrity(ctx, case):
     edges = case['edges']
     ok = all(a <= b for a, b in zip(edges, edges[1:]))
     try:
-        Livetime(np.array(edges, dtype=np.float64).reshape((-1, 2)))
+        Livetime(mk_array([(edges[i], edges[i + 1]) for i in range(0, len(edges), 2)]))
         acc = True
     except ValueError:
         acc = False
@@ -356,7 +381,7 @@ def o_history(ctx, case):
     lt = mk(sets[0])
     for k, ivs in enumerate(sets):
         if k > 0:
-            lt.uptime_mjd_intervals_arr = np.array(ivs, dtype=np.float64).reshape((-1, 2))
+            lt.uptime_mjd_intervals_arr = mk_array(ivs)
             # a rejected assignment (unsorted edges) must raise and keep the intervals just assigned
             if len(ivs) >= 1 and ivs[0][0] < ivs[-1][1]:
                 bad = np.array(ivs, dtype=np.float64).reshape((-1, 2))[::-1, ::-1].copy()
@@ -479,7 +504,7 @@ def _corr_lines(case):
         from skyllh.core.livetime import Livetime
         edges = case['edges']
         try:
-            Livetime(np.array(edges, dtype=np.float64).reshape((-1, 2)))
+            Livetime(mk_array([(edges[i], edges[i + 1]) for i in range(0, len(edges), 2)]))
             v = '1'
         except ValueError:
             v = '0'
